@@ -3,6 +3,7 @@
 package geom
 
 func init() {
+	vfHarnesses["C20_relate_transparency"] = vfhC20RelateTransparency
 	vfHarnesses["C20_unary_on_empties"] = vfhC20UnaryOnEmpties
 	vfHarnesses["C20_binary_on_empties"] = vfhC20BinaryOnEmpties
 	vfHarnesses["C20_transparency"] = vfhC20Transparency
@@ -203,5 +204,54 @@ func vfhC20MeasureTransparency() {
 	vfAssert(vfAnd(c1.X == c2.X, c1.Y == c2.Y), "Centroid unchanged by an empty member")
 	vfAssert(with.PointOnSurface().IsEmpty() == plain.PointOnSurface().IsEmpty(), "PointOnSurface emptiness unchanged")
 	vfAssert(with.Dimension() >= plain.Dimension(), "Dimension() may count the empty member (documented), never less")
+	vfReach("end")
+}
+
+// An empty member of any kind, added before or after POINT(p) in a collection,
+// changes neither the DE-9IM matrix nor any named predicate, against POINT(q),
+// against empty operands, and against a line that passes through the point.
+func vfhC20RelateTransparency() {
+	e := vfEmpty(vfInt("kind", 0, vfNumEmpties-1), DimXY)
+	var plain, other Geometry
+	switch vfInt("other", 0, 3) {
+	case 0:
+		plain = vfPointXY(XY{1, 1}).AsGeometry()
+		if vfBool("same") {
+			other = vfPointXY(XY{1, 1}).AsGeometry()
+		} else {
+			other = vfPointXY(XY{3, 2}).AsGeometry()
+		}
+	case 1:
+		plain = vfPointXY(vfPtO("p")).AsGeometry()
+		other = GeometryCollection{}.AsGeometry()
+	case 2:
+		plain = vfPointXY(XY{2, 2}).AsGeometry()
+		other = vfLineXY(XY{0, 0}, XY{4, 4}).AsGeometry()
+	default:
+		plain = vfLineXY(XY{0, 0}, XY{4, 4}).AsGeometry()
+		other = vfLineXY(XY{0, 4}, XY{4, 0}).AsGeometry()
+	}
+	var with Geometry
+	if vfBool("empty-first") {
+		with = NewGeometryCollection([]Geometry{e, plain}).AsGeometry()
+	} else {
+		with = NewGeometryCollection([]Geometry{plain, e}).AsGeometry()
+	}
+	m1, err1 := Relate(with, other)
+	m0, err0 := Relate(plain, other)
+	vfAssert(err0 == nil && err1 == nil && m1 == m0, "Relate(with, other) is Relate(plain, other)")
+	r1, err1 := Relate(other, with)
+	r0, err0 := Relate(other, plain)
+	vfAssert(err0 == nil && err1 == nil && r1 == r0, "Relate(other, with) is Relate(other, plain)")
+	preds := []func(a, b Geometry) (bool, error){Equals, Disjoint, Touches, Contains, Covers, Within, CoveredBy, Crosses, Overlaps}
+	names := []string{"Equals", "Disjoint", "Touches", "Contains", "Covers", "Within", "CoveredBy", "Crosses", "Overlaps"}
+	for i, f := range preds {
+		w, errw := f(with, other)
+		p, errp := f(plain, other)
+		vfAssert(errw == nil && errp == nil && w == p, names[i]+"(with, other) unchanged by the empty member")
+		w, errw = f(other, with)
+		p, errp = f(other, plain)
+		vfAssert(errw == nil && errp == nil && w == p, names[i]+"(other, with) unchanged by the empty member")
+	}
 	vfReach("end")
 }
